@@ -1,17 +1,36 @@
 //@file kiki/src/data/index_updater.rs mod=crate::data::index_updater
+//@[ imports
+use vstd::prelude::*;
+//@]
 #[derive(Debug)]
 pub struct IndexUpdater {
     index_map: Vec<usize>,
 }
 
+//@[ ghost view of IndexUpdater: the map old index -> new index
+impl View for IndexUpdater {
+    type V = Seq<usize>;
+    closed spec fn view(&self) -> Seq<usize> { self.index_map@ }
+}
+//@]
+
 impl IndexUpdater {
-    pub fn from_map(index_map: Vec<usize>) -> Self {
+    pub fn from_map(index_map: Vec<usize>) -> /*@[*/(r: /*@]*/Self/*@[*/)/*@]*/
+        //@[ C17 IndexUpdater::from_map
+        ensures r@ == index_map@,
+        //@]
+    {
         Self { index_map }
     }
 }
 
 impl IndexUpdater {
-    pub fn update(&self, i: usize) -> usize {
+    pub fn update(&self, i: usize) -> /*@[*/(r: /*@]*/usize/*@[*/)/*@]*/
+        //@[ C07 C17 IndexUpdater::update: in range only (no panic)
+        requires i < self@.len(),
+        ensures r == self@[i as int],
+        //@]
+    {
         self.index_map[i]
     }
 }
